@@ -441,7 +441,7 @@ func (c *Ctx) condKinds(cond ssa.Value, depth int) []string {
 
 // ruleC02b: declassifier guards.
 func ruleC02b(c *Ctx) []*report.Result {
-	r := report.NewResult("C02.b", "every call of the helper that installs the safe override is control-dependent on the success edge of exactly one declassifier — a lookup in the safe-type registry, equality with the Safe wrapper type, a successful assertion to SafeValue or SafeMessager — or opens a printer method whose parameter type implements SafeValue; every call of the pre-redactable helper is guarded by a redactable static type or type-variable equality: no new or inverted declassifier", 18)
+	r := report.NewResult("C02.b", "every call of the helper that installs the safe override is control-dependent on the success edge of exactly one declassifier — a lookup in the safe-type registry, equality with the Safe wrapper type, a successful assertion to SafeValue or SafeMessager — or opens a printer method whose parameter type implements SafeValue; every call of the pre-redactable helper is guarded by a redactable static type or type-variable equality: no new or inverted declassifier", 12)
 	ip := c.P.Pkg("interfaces")
 	var svIface *types.Interface
 	if ip != nil {
